@@ -10,9 +10,11 @@
 //
 // Stub backend (no chain): every RPC of the morph client is logged. Oracle:
 // a node that is not an alphabet member makes no write RPC
-// (sendrawtransaction / submitnotaryrequest); reads are allowed and reported
-// ("guard placed after a read" is not a violation). Handlers that never ask
-// the membership state at all are reported via labels and the run's table.
+// (sendrawtransaction / submitnotaryrequest) and does not go to the chain at
+// all without having consulted the membership state (reads before the guard
+// are allowed - "guard placed after a read" is not a violation; a handler that
+// reaches the chain and never asked has no guard). What non-members did per
+// handler is tabulated in the evidence.
 package c35
 
 import (
@@ -167,6 +169,14 @@ func TestC35Stub(t *testing.T) {
 			rec.Sample(map[string]any{"handler": name, "state": mode, "index": idx, "rpc": neoproxy.Describe(calls)})
 		}
 
+		// A non-member may read the chain before its guard, but a handler that touches the chain
+		// without EVER consulting the membership state has no guard on that path. The only handler
+		// that legitimately does so is netmap/NewEpoch (it refreshes local state - epoch counter,
+		// timers, network map copy - on every inner ring node and asks the state only before the
+		// placement update).
+		if !member && asked == 0 && len(calls) > 0 && name != "netmap/NewEpoch" {
+			t.Fatalf("%s in state %s (index %d) went to the chain without consulting the membership state: %s", name, mode, idx, neoproxy.Describe(calls))
+		}
 		if !member && len(writes) > 0 {
 			t.Fatalf("%s in state %s (index %d) sent %d write RPC(s): %s", name, mode, idx, len(writes), neoproxy.Describe(calls))
 		}
